@@ -81,6 +81,19 @@ Modify ==
                           pre |-> Roots(n, live), post |-> Roots(n2, lv2) ]
             IN  Step(step, n2, lv2, c2, Push([n |-> n, live |-> live]), marks)
 
+\* a block that has to be refused: it deletes a live leaf the instance does not
+\* remember.  A refused call changes nothing (every later observation is that of
+\* the unchanged state).
+BadModify ==
+  /\ "badmod" \in Acts
+  /\ \E D \in SUBSET live \ {{}} :
+       /\ ~(D \subseteq cached) /\ Cardinality(D) <= 2
+       /\ \E ord \in {AscSeq(D), [i \in 1..Cardinality(D) |-> AscSeq(D)[Cardinality(D) + 1 - i]]} :
+            LET step == [ a |-> "badmod", d |-> ord, k |-> 1, rem |-> <<0>>,
+                          pf |-> JProof(CanonProof(n, live, ord)),
+                          pre |-> Roots(n, live), post |-> Roots(n, live) ]
+            IN  Step(step, n, live, cached, stack, marks)
+
 \* Verify(hashes, proof, remember = true) of an arbitrary set of live leaves
 VerifyRemember ==
   /\ "vrem" \in Acts
@@ -152,7 +165,7 @@ MissQ ==
        IN  /\ UNCHANGED vars
            /\ Emit(step, Obs(n, live, cached) @@ [pp |-> JPosSeq(pp)])
 
-Next == Modify \/ VerifyRemember \/ Ingest \/ Prune \/ Undo \/ FromRoots \/ Restore \/ MissQ
+Next == Modify \/ BadModify \/ VerifyRemember \/ Ingest \/ Prune \/ Undo \/ FromRoots \/ Restore \/ MissQ
 Spec == Init /\ [][Next]_vars
 
 TypeOK == n \in 0..MaxN /\ live \subseteq 0..(n-1) /\ cached \subseteq live
